@@ -203,9 +203,55 @@ func (w *World) Begin(dt time.Duration) bool {
 	return r.Ok
 }
 
+// closingRounds projects, BEFORE the end-blocker runs, the rounds that will close in this block with
+// their reports, each report's power, the reporter's commission rate and the stake snapshot
+// (token origins) recorded when the report was made: the inputs of the reward split.
+func (w *World) closingRounds() []Rec {
+	out := []Rec{}
+	_ = w.App.OracleKeeper.Query.Walk(w.Ctx, nil, func(k collections.Pair[[]byte, uint64], q oracletypes.QueryMeta) (bool, error) {
+		if !q.HasRevealedReports || q.Expiration > uint64(w.Height) {
+			return false, nil
+		}
+		var reps []Rec
+		_ = w.App.OracleKeeper.Reports.Walk(w.Ctx, nil, func(rk collectionsTriple, r oracletypes.MicroReport) (bool, error) {
+			if string(rk.K1()) != string(k.K1()) || rk.K3() != q.Id {
+				return false, nil
+			}
+			ra, _ := sdk.AccAddressFromBech32(r.Reporter)
+			rr := Rec{"rep": w.Name(r.Reporter), "pow": NumU64(r.Power), "h": int(r.BlockNumber), "cyc": r.Cyclelist}
+			if rep, err := w.App.ReporterKeeper.Reporters.Get(w.Ctx, ra.Bytes()); err == nil {
+				rr["comm"] = Dec18(rep.CommissionRate)
+			} else {
+				rr["comm"] = Signed{Mag: Num{}}
+			}
+			if da, err := w.App.ReporterKeeper.Report.Get(w.Ctx, collections.Join(k.K1(), collections.Join(ra.Bytes(), r.BlockNumber))); err == nil {
+				rr["origins"] = w.originsRec(da)
+			} else {
+				rr["origins"] = Rec{"total": Signed{Mag: Num{}}, "origins": []Rec{}}
+			}
+			reps = append(reps, rr)
+			return false, nil
+		})
+		out = append(out, Rec{"q": w.QN(k.K1()), "id": int(q.Id), "amt": NumInt(q.Amount), "cyc": q.CycleList, "kind": queryKind(w.QN(k.K1())), "reports": reps})
+		return false, nil
+	})
+	return out
+}
+
 func (w *World) End() bool {
+	var closing []Rec
+	var tbrBefore Num
+	if w.Proj["rewards"] {
+		closing = w.closingRounds()
+		tbrBefore = NumInt(w.ModBal("time_based_rewards"))
+	}
 	r := w.EndBlock()
 	args := Rec{}
+	if w.Proj["rewards"] {
+		args["closing"] = closing
+		args["tbrpre"] = tbrBefore
+		args["tbrpost"] = NumInt(w.ModBal("time_based_rewards"))
+	}
 	if tb, err := w.App.StakingKeeper.TotalBondedTokens(w.Ctx); err == nil {
 		args["bonded"] = NumInt(tb)
 	}
